@@ -121,6 +121,18 @@ theorem isect2_isSome_iff (ka kb : Rng) (a b : LR2 α) :
   split_ifs with h1 h2 <;> simp_all
 
 
+/-- In exact arithmetic the `_isclose` consistency test of `intersect_line_segment2d` never
+fires when the two candidate coordinates coincide. -/
+theorem isclose_self_passes (c x y : α) (hc : 0 < c) (hxy : x = y) :
+    ¬ (max (c * max |x| |y|) c < |x - y|) := by
+  subst hxy
+  rw [sub_self, abs_zero, not_lt]
+  exact le_trans hc.le (le_max_right _ _)
+
+/-- The same fact in `≤` form. -/
+theorem isclose_self_le (c x y : α) (hc : 0 < c) (hxy : x = y) :
+    |x - y| ≤ max (c * max |x| |y|) c := not_lt.mp (isclose_self_passes c x y hc hxy)
+
 /-! ### The generated kernels are instances of the model -/
 
 theorem intersect_line2d_ss_eq (a b : LR2 α) :
@@ -140,7 +152,17 @@ theorem does_intersection_exist_line2d_ss_eq (a b : LR2 α) :
     does_intersection_exist_line2d_ss a b = (isect2 .seg .seg a b).isSome := by
   rw [Bool.eq_iff_iff, isect2_isSome_iff]
   unfold does_intersection_exist_line2d_ss
-  simp only [det2, ua, ub, Rng.ok, decide_eq_true_eq, not_lt, ne_eq]
+  simp only [decide_eq_true_eq, not_lt]
+  constructor
+  · intro h
+    simp only [det2, ua, ub, Rng.ok, ne_eq]
+    exact ⟨h.1, h.2.1, h.2.2.1⟩
+  · intro h
+    have cx := cramer_x a b h.1
+    have cy := cramer_y a b h.1
+    simp only [det2, ua, ub, Rng.ok, ne_eq] at h cx cy
+    exact ⟨h.1, h.2.1, h.2.2, isclose_self_le _ _ _ (by positivity) cx,
+      isclose_self_le _ _ _ (by positivity) cy⟩
 
 theorem intersect_line2d_sr_eq (a b : LR2 α) :
     intersect_line2d_sr a b = isect2 .seg .ray a b := by
@@ -158,7 +180,17 @@ theorem does_intersection_exist_line2d_sr_eq (a b : LR2 α) :
     does_intersection_exist_line2d_sr a b = (isect2 .seg .ray a b).isSome := by
   rw [Bool.eq_iff_iff, isect2_isSome_iff]
   unfold does_intersection_exist_line2d_sr
-  simp only [det2, ua, ub, Rng.ok, decide_eq_true_eq, not_lt, ne_eq]
+  simp only [decide_eq_true_eq, not_lt]
+  constructor
+  · intro h
+    simp only [det2, ua, ub, Rng.ok, ne_eq]
+    exact ⟨h.1, h.2.1, h.2.2.1⟩
+  · intro h
+    have cx := cramer_x a b h.1
+    have cy := cramer_y a b h.1
+    simp only [det2, ua, ub, Rng.ok, ne_eq] at h cx cy
+    exact ⟨h.1, h.2.1, h.2.2, isclose_self_le _ _ _ (by positivity) cx,
+      isclose_self_le _ _ _ (by positivity) cy⟩
 
 theorem intersect_line2d_rs_eq (a b : LR2 α) :
     intersect_line2d_rs a b = isect2 .ray .seg a b := by
@@ -176,7 +208,17 @@ theorem does_intersection_exist_line2d_rs_eq (a b : LR2 α) :
     does_intersection_exist_line2d_rs a b = (isect2 .ray .seg a b).isSome := by
   rw [Bool.eq_iff_iff, isect2_isSome_iff]
   unfold does_intersection_exist_line2d_rs
-  simp only [det2, ua, ub, Rng.ok, decide_eq_true_eq, not_lt, ne_eq]
+  simp only [decide_eq_true_eq, not_lt]
+  constructor
+  · intro h
+    simp only [det2, ua, ub, Rng.ok, ne_eq]
+    exact ⟨h.1, h.2.1, h.2.2.1⟩
+  · intro h
+    have cx := cramer_x a b h.1
+    have cy := cramer_y a b h.1
+    simp only [det2, ua, ub, Rng.ok, ne_eq] at h cx cy
+    exact ⟨h.1, h.2.1, h.2.2, isclose_self_le _ _ _ (by positivity) cx,
+      isclose_self_le _ _ _ (by positivity) cy⟩
 
 theorem intersect_line2d_rr_eq (a b : LR2 α) :
     intersect_line2d_rr a b = isect2 .ray .ray a b := by
@@ -194,15 +236,17 @@ theorem does_intersection_exist_line2d_rr_eq (a b : LR2 α) :
     does_intersection_exist_line2d_rr a b = (isect2 .ray .ray a b).isSome := by
   rw [Bool.eq_iff_iff, isect2_isSome_iff]
   unfold does_intersection_exist_line2d_rr
-  simp only [det2, ua, ub, Rng.ok, decide_eq_true_eq, not_lt, ne_eq]
-
-/-- In exact arithmetic the `_isclose` consistency test of `intersect_line_segment2d` never
-fires when the two candidate coordinates coincide. -/
-theorem isclose_self_passes (c x y : α) (hc : 0 < c) (hxy : x = y) :
-    ¬ (max (c * max |x| |y|) c < |x - y|) := by
-  subst hxy
-  rw [sub_self, abs_zero, not_lt]
-  exact le_trans hc.le (le_max_right _ _)
+  simp only [decide_eq_true_eq, not_lt]
+  constructor
+  · intro h
+    simp only [det2, ua, ub, Rng.ok, ne_eq]
+    exact ⟨h.1, h.2.1, h.2.2.1⟩
+  · intro h
+    have cx := cramer_x a b h.1
+    have cy := cramer_y a b h.1
+    simp only [det2, ua, ub, Rng.ok, ne_eq] at h cx cy
+    exact ⟨h.1, h.2.1, h.2.2, isclose_self_le _ _ _ (by positivity) cx,
+      isclose_self_le _ _ _ (by positivity) cy⟩
 
 theorem intersect_line_segment2d_eq (a b : LR2 α) :
     intersect_line_segment2d a b = isect2 .seg .seg a b := by
